@@ -492,3 +492,8 @@ pub struct Measurement {
     /// The uncertainty of the timestamps.
     pub uncertainty: Duration,
 }
+
+// verification hook (guard: cfg(kani)); contract harnesses live outside the repository
+#[cfg(kani)]
+#[path = "/verif/kani/statime_algo/lib.rs"]
+mod verif;
